@@ -483,6 +483,14 @@ def impl(case):
     finally:
         og.BipartiteGraph, og.minimum_vertex_cover = orig_bg, orig_mvc
     res = {'graph': _gjson(g), 'covers': covers, 'consistent': bool(g.is_consistent()), 'length': int(g.length)}
+    # the chain list is an operand: it must come back unchanged, and compiling the SAME list again must give the same graph
+    res['chains_unchanged'] = bool(all(ch.oids == list(c['oids']) and ch.qnums == list(c['qnums']) and ch.coeff == cnum(c['coeff'])
+                                       and ch.istart == c['istart'] for ch, c in zip(chains, case['chains'])))
+    try:
+        g2 = og.OpGraph.from_opchains(chains, case['L'], case['idn'])
+        res['second_compile_same'] = bool(_gjson(g2) == res['graph'])
+    except Exception as e:
+        res['second_compile_same'] = False
     if not case.get('nompo'):
         res['mpo'] = _mpo_result(case, g)
     return res
@@ -648,6 +656,10 @@ def expected_error(case):
 
 def prop(case, r):
     msgs = []
+    if r.get('chains_unchanged') is False:
+        msgs.append('from_opchains modified the chain list it was given')
+    if r.get('second_compile_same') is False:
+        msgs.append('compiling the same chain list a second time gives a different graph (or fails)')
     want = expected_error(case)
     if 'error' in r:
         if r.get('stage') == 'build':
